@@ -414,7 +414,98 @@ def gen_c07():
     return rel
 
 
-GROUPS = {"C07": gen_c07, "C19": gen_c19, "C20": gen_c20, "C17": gen_c17, "C16": gen_c16, "C06": gen_c06, "C08": gen_c08}
+# ------------------------------------------------------------------------------------------ C13: which resolved modules are formatted
+
+def gen_c13():
+    rel = "Gen/C13/KeepOps.v"
+    try:
+        toks = R.lex(open(os.path.join(common.REPO, "src/formatting.rs")).read())
+        getters = {"skip_children": ("skip_children", "bool"), "format_generated_files": ("format_generated", "bool")}
+        # the facts about one (path, module) pair are parameters; `psess.ignore_file(Stdin)` is false (ignore_path.rs: only FileName::Real matches)
+        opaque = {"contains_skip(module.attrs())": ("has_skip", "bool"), "path != main_file": ("(negb is_main)", "bool"), "path == main_file": ("is_main", "bool"),
+                  "context.ignore_file(path)": ("ignored", "bool"), "is_generated_file(src, config)": ("generated", "bool")}
+        ctx = R.Ctx({}, getters=getters, opaque=opaque)
+        p = R.P(toks, R.find_fn(toks, 0, len(toks), "should_skip_module"))
+        name, params, ret, body = p.fn()
+        if [n for n, _ in params] != ["config", "context", "input_is_stdin", "main_file", "path", "module"] or ret != "bool":
+            raise R.Unsupported("signature of should_skip_module changed: %r -> %r" % (params, ret))
+        term, ty = R.Tr(ctx, None, {"input_is_stdin": "bool", "source_file": "?", "src": "?"}).blk(body)
+        PARAMS = "(skip_children format_generated input_is_stdin has_skip is_main ignored generated : bool)"
+        ARGS = "skip_children format_generated input_is_stdin has_skip is_main ignored generated"
+        out = [HEADER % (rel, "src/formatting.rs"), "From V Require Import Base.Text Base.Tie C13.Model.", "Open Scope N_scope.", "",
+               "(* should_skip_module; has_skip = contains_skip(module.attrs()), is_main = (path == main_file), ignored = context.ignore_file(path),\n"
+               "   generated = is_generated_file(src, config) *)\nDefinition g_should_skip_module %s : bool :=\n  %s.\n" % (PARAMS, term)]
+        # format_project: the three places that decide what is walked / kept
+        f0 = R.find_fn(toks, 0, len(toks), "format_project")
+        f1 = f0 + 1
+        while not (toks[f1][1] == "fn" and toks[f1 - 1][1] in ("}", "]")) and f1 < len(toks) - 1:
+            f1 += 1
+
+        def find(seq, what):
+            for j in range(f0, f1):
+                if [t for _, t in toks[j:j + len(seq)]] == seq:
+                    return j
+            raise R.Unsupported("format_project: no %s" % what)
+        # (a) the filter closure
+        j = find([".", "filter", "(", "|", "(", "path", ",", "module", ")", "|", "{"], "filter closure over (path, module)")
+        q = R.P(toks, j + 10)
+        blk = q.block()
+        if q.peek() != ")":
+            raise R.Unsupported("filter closure")
+        c2 = R.Ctx({}, getters=getters, opaque={"should_skip_module(config, context, input_is_stdin, main_file, path, module)": ("(g_should_skip_module %s)" % ARGS, "bool")})
+        term, ty = R.Tr(c2, None, {"input_is_stdin": "bool"}).blk(blk)
+        out.append("(* format_project: .filter(|(path, module)| ..) over the resolver's file map *)\nDefinition g_keep %s : bool :=\n  %s.\n" % (PARAMS, term))
+        # exactly one filter between visit_crate and the loop
+        if sum(1 for j2 in range(f0, f1) if toks[j2][1] == "filter") != 1:
+            raise R.Unsupported("format_project: more than one filter")
+        # (b) ModResolver::new(.., .., recursive)
+        j = find(["ModResolver", "::", "new", "("], "ModResolver::new")
+        q = R.P(toks, j + 4)
+        args = []
+        while True:
+            args.append(q.expr())
+            if q.peek() == ",":
+                q.eat()
+            if q.peek() == ")":
+                break
+        if len(args) != 3:
+            raise R.Unsupported("ModResolver::new arity")
+        term, ty = R.Tr(R.Ctx({}, getters=getters), None, {"input_is_stdin": "bool"}).e(args[2])
+        out.append("(* format_project: the `recursive` argument of ModResolver::new *)\nDefinition g_recursive (skip_children input_is_stdin : bool) : bool :=\n  %s.\n" % term)
+        # (c) the early exit before parsing
+        j = find(["if", "config", ".", "skip_children", "(", ")", "&&"], "early exit")
+        q = R.P(toks, j + 1)
+        cond = q.expr(nostruct=True)
+        b = q.block()
+        if [s[0] for s in b[1]] != ["return"] or b[2] is not None:
+            raise R.Unsupported("early exit body")
+        term, ty = R.Tr(R.Ctx({}, getters=getters, opaque={"psess.ignore_file(main_file)": ("((negb input_is_stdin) && root_ignored)", "bool")}), None, {"input_is_stdin": "bool"}).e(cond)
+        out.append("(* format_project: `if <this> { return Ok(FormatReport::new()) }` before parsing; psess.ignore_file(Stdin) = false *)\n"
+                   "Definition g_early_exit (skip_children input_is_stdin root_ignored : bool) : bool :=\n  %s.\n" % term)
+        # (d) the echo-back guard of the loop
+        j = find(["if", "input_is_stdin", "&&", "contains_skip"], "stdin echo guard")
+        q = R.P(toks, j + 1)
+        cond = q.expr(nostruct=True)
+        term, ty = R.Tr(R.Ctx({}, opaque=opaque), None, {"input_is_stdin": "bool"}).e(cond)
+        out.append("(* format_project: the guard of echo_back_stdin inside the loop *)\nDefinition g_echo_back (input_is_stdin has_skip : bool) : bool :=\n  %s.\n" % term)
+        U = ["g_should_skip_module", "g_keep", "g_recursive", "g_early_exit", "g_echo_back", "keep"]
+        out.append(_theorem("tie_keep", "forall lookup ffacts cfg root e, g_keep (skip_children cfg) (format_generated cfg) (input_is_stdin cfg) (minfo_skip ffacts (snd e)) (path_eqb (fst e) root) (path_ignored lookup ffacts (fst e)) (minfo_generated ffacts (snd e)) = keep lookup ffacts cfg root e", U,
+                            "intros lookup ffacts cfg root e. unfold g_keep, g_should_skip_module, keep. destruct (input_is_stdin cfg), (minfo_skip ffacts (snd e)), (skip_children cfg), (path_eqb (fst e) root), (path_ignored lookup ffacts (fst e)), (format_generated cfg), (minfo_generated ffacts (snd e)); reflexivity."))
+        out.append(_theorem("tie_recursive", "forall sc stdin, g_recursive sc stdin = negb stdin && negb sc", U, "intros [] []; reflexivity."))
+        out.append(_theorem("tie_early_exit", "forall sc stdin ig, g_early_exit sc stdin ig = sc && negb stdin && ig", U, "intros [] [] []; reflexivity."))
+        out.append(_theorem("tie_echo_back", "forall stdin hs, g_echo_back stdin hs = stdin && hs", U, "intros [] []; reflexivity."))
+        # statements about the code as it is now (no model in between)
+        out.append(_theorem("now_stdin_keeps_everything", "forall sc fg hs im ig gen, g_keep sc fg true hs im ig gen = true", U, "intros [] [] [] [] [] []; reflexivity."))
+        out.append(_theorem("now_kept_iff", "forall sc fg hs im ig gen, g_keep sc fg false hs im ig gen = true <-> (hs = false /\\ (sc = true -> im = true) /\\ ig = false /\\ (fg = false -> gen = false))", U,
+                            "intros [] [] [] [] [] []; cbv; intuition congruence."))
+        out.append(_theorem("now_generated_files_formatted_on_request", "forall sc hs im ig gen, g_keep sc true false hs im ig gen = g_keep sc true false hs im ig false", U, "intros [] [] [] [] []; reflexivity."))
+        _write(rel, "\n".join(out))
+    except (R.Unsupported, AssertionError, KeyError, IndexError, ValueError) as e:
+        _failed(rel, "keep_ops", e)
+    return rel
+
+
+GROUPS = {"C13": gen_c13, "C07": gen_c07, "C19": gen_c19, "C20": gen_c20, "C17": gen_c17, "C16": gen_c16, "C06": gen_c06, "C08": gen_c08}
 
 
 def gen_all():
